@@ -265,13 +265,18 @@ func checkHistory(plan Plan, ops []HOp, res *histResult, reuse bool) []finding {
 					}
 				}
 				cls := rclass(k, "C01")
+				what := fmt.Sprintf("event of op#%d (%s, session %d) carries %s identity: %s", src, sop, k, who, got.subj)
 				if s.cdAt >= 0 && src > s.cdAt {
-					cls = rclass(k, "C04") // post-end event with a foreign identity
+					// post-end event with a foreign identity: C04's last clause
+					// (and, when it comes about through PID reuse, C09's too)
+					cls = "C04"
 					if reuse {
-						cls = "C09"
+						add("C09", "foreign-identity", what)
 					}
+					add(cls, "post-end-foreign-identity", what)
+				} else {
+					add(cls, "foreign-identity", what)
 				}
-				add(cls, "foreign-identity", fmt.Sprintf("event of op#%d (%s, session %d) carries %s identity: %s", src, sop, k, who, got.subj))
 			}
 			observed[k] = append(observed[k], src)
 		}
